@@ -1796,8 +1796,14 @@ def _lincomb_impl(a, x1, b, x2, out):
     size = native(x1.size)
 
     if size < THRESHOLD_SMALL:
-        # Faster for small arrays
-        out.data[:] = a * x1.data + b * x2.data
+        # Faster for small arrays. As in the other size regimes, a zero
+        # linear combination is assigned directly, such that non-finite
+        # values in the operands (e.g. in an uninitialized `out` that is
+        # reset with ``set_zero``) do not propagate.
+        if a == 0 and b == 0:
+            out.data[:] = 0
+        else:
+            out.data[:] = a * x1.data + b * x2.data
         return
 
     elif (size < THRESHOLD_MEDIUM or
